@@ -2,7 +2,7 @@
    Property theorems only: each is closed by [exact] of a lemma (L_Config, L_Settings, L_Fs,
    L_Sched) or by computation on the field table REGENERATED from /repo on every run
    (Gen/Gen_ConfigTable.v), and followed by Print Assumptions. *)
-From PV Require Import M_Config M_Settings M_Fs M_Sched S_Config L_Config L_Settings L_Fs L_Sched L_C19 Gen.Gen_ConfigTable.
+From PV Require Import M_Config M_Flags L_Flags M_Settings M_Fs M_Sched S_Config L_Config L_Settings L_Fs L_Sched L_C19 Gen.Gen_ConfigTable.
 Open Scope string_scope.
 Open Scope Z_scope.
 
@@ -209,6 +209,35 @@ Theorem faults_leave_no_trace : forall pf js fs cur h st,
   run_hist_f pf js fs cur st h = run_hist_f pf js fs cur st (successes_f pf js fs cur st h).
 Proof. exact faults_leave_no_trace_lemma. Qed.
 Print Assumptions faults_leave_no_trace.
+
+(* ---------- end to end: flags, URL, stored view ---------- *)
+(* option flags touch only the options they name; without flags the run starts from the defaults *)
+Theorem flags_touch_only_named_options : forall pf fs c fl c' f,
+  nodup_str (map f_name fs) = true -> config_flags pf fs c fl = Ok c' -> In f fs ->
+  flag_get fl (f_name f) = None -> (forall ch, In ch (f_choices f) -> flag_true fl ch = false) ->
+  c' (f_name f) = c (f_name f).
+Proof. exact config_flags_untouched. Qed.
+Print Assumptions flags_touch_only_named_options.
+
+Theorem no_flags_no_change : forall pf fs c, config_flags pf fs c [] = Ok c.
+Proof. exact config_flags_nil. Qed.
+Print Assumptions no_flags_no_change.
+
+(* the options in force when a view is saved -- set by command-line flags or otherwise, and not
+   overridden by the request URL -- are part of the stored configuration (whatever the Config menu
+   marks as current) *)
+Theorem save_keeps_options_in_force : forall pf js fs cur,
+  (forall s, js s = s) -> nodup_str (map f_name fs) = true ->
+  forallb (fun f => negb (f_saved f && f_transient f)) fs = true ->
+  forall st q st' c before f,
+    set_config pf js fs cur st q = (0, st') ->
+    apply_url_go pf fs cur q = Ok c ->
+    read_settings fs cur st = Some before ->
+    In f fs -> f_saved f = true -> (f_url f = "" \/ vget q (f_url f) = "") ->
+    exists aft c', read_settings fs cur st' = Some aft /\ lookup_first aft (vget q "config") = Some c' /\
+      norm_val (f_kind f) (c' (f_name f)) = norm_val (f_kind f) (cur (f_name f)).
+Proof. exact save_keeps_options_in_force_lemma. Qed.
+Print Assumptions save_keeps_options_in_force.
 
 (* ---------- crash atomicity ---------- *)
 (* for every op list in the protocol class (the recogniser is evaluated on the system calls the
